@@ -707,3 +707,23 @@ func fuzzCorpus(out, label string, dirs []string) {
 		}
 	}
 }
+
+// byteSrc is a math/rand source that reads a fuzzer's byte string (zeros once it is used up): every generator that
+// draws from a *rand.Rand can be steered by the coverage-guided fuzzer and still only produces well-formed inputs.
+type byteSrc struct {
+	b []byte
+	i int
+}
+
+func (s *byteSrc) Seed(int64) {}
+func (s *byteSrc) Int63() int64 {
+	var v uint64
+	for k := 0; k < 8; k++ {
+		v <<= 8
+		if s.i < len(s.b) {
+			v |= uint64(s.b[s.i])
+			s.i++
+		}
+	}
+	return int64(v >> 1)
+}
